@@ -25,7 +25,7 @@ ASSUMPTIONS = [
     "code outside the lal and naza modules (standard library) is not walked: function literals passed to it are assumed to be called synchronously with the caller's locks held; methods of lal/naza types matching a standard-library interface method are followed when such an object is passed; objects stored inside standard-library wrappers (bufio around a connection) and calls made by reflection (fmt verbs calling String/Error) are not followed",
     "locks of the standard library are not tracked (assumed leaf locks)",
     "the analysed build is the production one (no verif tag, pkg/innertest excluded)",
-    "channel discipline: channels are classes (pkg.Type.field, func$variable), a class closed anywhere obliges all its send sites; recognised protocols: common mutex + flag the closer writes and the sender reads (syntactic: same functions), all sends and closes in one function with no send reachable after a close, WaitGroup Done in the sender / Wait before the close; channels handed around as parameters are classes of their own; double close and receive-side behaviour are not checked",
+    "channel discipline: channels are classes (pkg.Type.field, func$variable), a class closed anywhere obliges all its send sites; recognised protocols: common mutex + flag the closer writes and the sender reads (syntactic: same functions), all sends and closes in one function with no send reachable after a close, WaitGroup Done in the sender / Wait before the close; channels handed around as parameters are classes of their own; every close site must run at most once per channel: inside a sync.Once.Do of the channel's object, behind a field of that object tested and set under its mutex (syntactic: a dominating branch on the field and a store to it in the same function), the maker closing its own channel once, or reviewed (close_once) - 'per instance' is by class, the once / mutex / flag must be fields of the struct that holds the channel; receive-side behaviour is not checked",
     "publication order: publication = a call into the consumer package (logic) that retains the object, a go statement, a channel send, a map store under a lock; 'shared' = reached by another goroutine through the published object (per type, not per instance); only plain stores count as writes (address-taking calls are followed into lal/naza code, not into the standard library); guessed standard-library callbacks are ignored for this fact; the Coq-checked traces unroll loops twice and are capped at 512 per function (coverage.publication_order.truncated_functions), order across activations beyond that is decided by the translator's walk (pub_walk_violations)",
 ]
 FULL_OUTPUT = True
@@ -338,6 +338,8 @@ def run(ctx, cases, cov, violations, known_hits, notes):
                                      never_closed=dict((c["class"], len(c["sends"])) for c in chans if not c["closes"]),
                                      justified_send_sites=[dict(channel=c["class"], send=s["pos"], protocol=s["protocol"], why=s["why"])
                                                            for c in chans if c["closes"] for s in c["sends"] if s.get("protocol")],
+                                     justified_close_sites=[dict(channel=c["class"], close=s["pos"], justification=s.get("protocol"), why=s["why"])
+                                                            for c in chans for s in c["closes"] if s.get("protocol")],
                                      violations=len(ch.get("violations", [])))
     for v in [x for x in ch.get("violations", []) if x.get("kind") == "double-close"][:5]:
         cov["oracle_failed"] = cov.get("oracle_failed", 0) + 1
